@@ -1,11 +1,12 @@
 #!/bin/bash
 # Fails the build if a library object has a non-empty writable section that the
-# process-image snapshot would miss (DESIGN 4.4).
+# process-image snapshot would miss (DESIGN 4.4).  .data.rel.ro* holds constants that merely need relocation
+# (tables of pointers to string literals): read-only once loaded, not part of the mutable image.
 obj="$1"
 bad=$(objdump -h "$obj" | awk '
   /^ *[0-9]+ / { name=$2; size=strtonum("0x"$3); getline flags;
     if (size > 0 && flags ~ /ALLOC/ && flags !~ /READONLY/ && flags !~ /CODE/) {
-      if (name !~ /^sim[dbr](cfg|lex)$/ && name !~ /^\.(init|fini)_array/ && name !~ /^\.(tm_clone_table|preinit_array)/) print name
+      if (name !~ /^sim[dbr](cfg|lex)$/ && name !~ /^\.(init|fini)_array/ && name !~ /^\.(tm_clone_table|preinit_array)/ && name !~ /^\.data\.rel\.ro/) print name
     } }')
 if [ -n "$bad" ]; then
   echo "check_sections: $obj has writable sections outside the process image: $bad" >&2
